@@ -361,3 +361,302 @@ def used_kinds(classes, guards):
         for a in c["acc"]:
             n[a["k"]] += 1
     return n
+
+
+# ----------------------------------------------------------------------------------------------
+# TLC on the summaries
+# ----------------------------------------------------------------------------------------------
+INVARIANTS = "InvNoRace InvSequentialEquivalence InvGuardDiscipline InvProgress"
+REQUIRED_ACTIONS = ["DoSilentRead", "DoRead", "DoInitWrite", "DoGuardPass", "DoGuardAcquire", "DoGuardRelease", "DoEndOp"]
+_run_no = [0]
+
+
+def action_counts(out):
+    res = {}
+    for m in re.finditer(r"<(Do\w+) line \d+, col \d+ to line \d+, col \d+ of module MC_Threads[^>]*>: (\d+):(\d+)", out):
+        res[m.group(1)] = max(res.get(m.group(1), 0), int(m.group(3)))
+    return res
+
+
+def run_model(label, rows, T, fuse, chk=None, timeout=1500, coverage=False, workers=8, xmx="4g"):
+    """TLC over all interleavings of the program assignments allowed by the plan lines in rows.
+    Returns (TlcResult, violation or None); violation = {"invariant", "trace": decoded counterexample}."""
+    _run_no[0] += 1
+    tag = "%d-%d" % (os.getpid(), _run_no[0])
+    sp = os.path.join(vlib.scratch(), "summaries-%s.ndjson" % tag)
+    vlib.write_ndjson(sp, rows)
+    cfg = write_file("mc_threads-%s.cfg" % tag, "SPECIFICATION Spec\nCONSTANTS\n  T = %d\n  Fuse = %s\nINVARIANTS %s\n" % (
+        T, "TRUE" if fuse else "FALSE", INVARIANTS))
+    tr = os.path.join(vlib.scratch(), "cex-%s.json" % tag)
+    r = vlib.tlc("MC_Threads", cfg=cfg, env={"SUMMARIES": sp}, workers=workers, timeout=timeout, xmx=xmx,
+                 coverage=coverage, allow=(0, 12), extra=["-dumpTrace", "json", tr])
+    if chk is not None:
+        chk.add_tlc(label, r, {"T": T, "fuse_silent_reads": fuse,
+                               "plans": [[len(s) for s in x["slots"]] for x in rows if x["kind"] == "plan"]})
+    viol = None
+    if r.rc == 12:
+        m = re.search(r"Invariant (\w+) is violated", r.out)
+        if not m or not os.path.exists(tr):
+            raise MachineryError("TLC reported a violation on %s without invariant name / trace:\n%s" % (label, r.out[-3000:]))
+        with open(tr) as f:
+            cex = json.load(f)
+        viol = {"invariant": m.group(1), "run": label, "T": T, "fuse_silent_reads": fuse,
+                "trace": decode_trace(cex, rows)}
+    for p in (sp, tr):
+        if os.path.exists(p):
+            os.unlink(p)
+    return r, viol
+
+
+def decode_trace(cex, rows):
+    """TLC counterexample (states of the single variable m) -> programs, the interleaving as a list of steps, the race /
+    divergence record."""
+    ops = {x["name"]: x["acc"] for x in rows if x["kind"] == "op"}
+    blocks = {x["name"]: x["acc"] for x in rows if x["kind"] == "guard"}
+    states = [s[1]["m"] for s in cex["counterexample"]["state"]]
+    steps = []
+    for a, b in zip(states, states[1:]):
+        for t in range(len(a["slot"])):
+            if a["slot"][t] != b["slot"][t] or a["stack"][t] != b["stack"][t]:
+                top = a["stack"][t][-1]
+                opname = a["prog"][t][a["slot"][t] - 1]
+                seq = ops[opname] if top["g"] == "" else blocks.get(top["g"], [])
+                if top["i"] > len(seq):
+                    what = "end of operation" if top["g"] == "" else "GuardRelease(%s)" % top["g"]
+                else:
+                    acc = seq[top["i"] - 1]
+                    if acc["k"] == "gc":
+                        st = a["guard"][acc["l"]]["st"]
+                        what = ("GuardCheck(%s): initialised, synchronises" if st == "done" else "GuardAcquire(%s): runs the initialiser") % acc["l"]
+                    elif acc["k"] == "r":
+                        what = "Read(%s)" % acc["l"]
+                    elif top["g"] != "":
+                        what = "InitWrite(%s, %s)" % (top["g"], acc["l"])
+                    else:
+                        what = ("Write(%s)" if acc["k"] == "w" else "Update(%s)") % acc["l"]
+                steps.append({"thread": t + 1, "op": opname, "slot": a["slot"][t], "in": top["g"], "i": top["i"], "step": what})
+    last = states[-1]
+    return {"programs": last["prog"], "interleaving": steps, "race": last["race"], "diverged": last["diverged"]}
+
+
+def first_access_of_race(trace):
+    """The earlier access of the racy pair: last access of thread u to the location, of the kind named by the race."""
+    race = trace["race"]
+    want = ("Write(", "Update(", "InitWrite(") if race["firstk"] == "w" else ("Read(", "Update(")
+    for s in reversed(trace["interleaving"][:-1]):
+        if s["thread"] == race["u"] and s["step"].startswith(want) and s["step"].rstrip(")").endswith(race["loc"]):
+            return s
+    return None
+
+
+# ----------------------------------------------------------------------------------------------
+# legs
+# ----------------------------------------------------------------------------------------------
+def leg_selftest(chk, S):
+    """Vacuity guard: the same model, the recorded summaries plus ONE synthetic defect.  An unguarded Write added to a
+    warmed-up operation MUST come back as a NoRace counterexample (TLC exit 12) on exactly that location; the same write
+    placed inside the initialiser of a guard (InitWrite) MUST be accepted."""
+    cl = S.classes()
+    host = max(cl, key=lambda c: sum(1 for a in c["acc"] if a["k"] == "gc"))
+    loc = "selftest::scratch_buffer"
+    racy = {"kind": "op", "name": "selftest.racy", "acc": host["acc"] + [{"k": "u", "l": loc}], "members": ["selftest.racy"]}
+    base = [r for r in S.lines([]) if r["kind"] != "plan"]
+    rows = base + [racy, {"kind": "plan", "slots": [[host["name"], "selftest.racy"]]}]
+    r, viol = run_model("selftest: synthetic unguarded write (must be found)", rows, 2, False, chk, timeout=600, workers=4, xmx="2g")
+    if viol is None or viol["invariant"] != "InvNoRace" or viol["trace"]["race"]["loc"] != loc:
+        raise MachineryError("self-test failed: TLC did not return the racing interleaving for the synthetic unguarded write "
+                             "(exit %d, %s)" % (r.rc, viol and viol["invariant"]))
+    guards = [a["l"] for a in host["acc"] if a["k"] == "gc"]
+    if guards:
+        g = guards[0]
+        rows2 = [dict(x, acc=x["acc"] + [{"k": "w", "l": loc}]) if (x["kind"] == "guard" and x["name"] == g) else x for x in base]
+        reader = {"kind": "op", "name": "selftest.guarded", "acc": host["acc"] + [{"k": "r", "l": loc}], "members": ["selftest.guarded"]}
+        rows2 += [reader, {"kind": "plan", "slots": [[host["name"], "selftest.guarded"]]}]
+        r2, viol2 = run_model("selftest: the same write inside a guard (must pass)", rows2, 2, False, chk, timeout=600, workers=4, xmx="2g")
+        if viol2 is not None:
+            raise MachineryError("self-test failed: a guarded InitWrite was reported as %s" % viol2["invariant"])
+    chk.sample({"leg": "selftest", "synthetic_race": viol["trace"]["race"], "interleaving_steps": len(viol["trace"]["interleaving"])})
+    return len(viol["trace"]["interleaving"])
+
+
+def describe(S, viol):
+    tr = viol["trace"]
+    if viol["invariant"] == "InvNoRace":
+        race = tr["race"]
+        second = tr["interleaving"][-1]
+        first = first_access_of_race(tr)
+        info = S.locinfo.get(race["loc"], {})
+        what = "data race on static storage %s: thread %d %s in %s is not ordered by happens-before with thread %d %s in %s" % (
+            race["loc"], race["t"], second["step"], second["op"], race["u"], first["step"] if first else ("last %s" % race["firstk"]),
+            first["op"] if first else "?")
+        if info.get("writers"):
+            what += "; written by " + ", ".join(sorted(info["writers"]))[:300]
+        key = ("race", race["loc"])
+    elif viol["invariant"] == "InvSequentialEquivalence":
+        d = tr["diverged"]
+        what = "a read of %s by thread %d in %s returns %s, sequentially it returns %s" % (
+            d["loc"], d["t"], d["at"]["op"], json.dumps(d["saw"]), json.dumps(d["expected"]))
+        key = ("diverged", d["loc"])
+    else:
+        what = "model invariant %s violated on the recorded summaries" % viol["invariant"]
+        key = (viol["invariant"], "")
+    return what, key
+
+
+def report(chk, S, viol, seen):
+    what, key = describe(S, viol)
+    if key in seen:
+        return
+    seen.add(key)
+    used = set(n for p in viol["trace"]["programs"] for n in p)
+    rows = [r for r in S.lines([]) if r["kind"] == "guard" or (r["kind"] == "op" and r["name"] in used)]
+    loc = viol["trace"]["race"]["loc"] or viol["trace"]["diverged"]["loc"]
+    chk.fail(what, {"leg": "model", "invariant": viol["invariant"], "tlc_run": viol["run"], "T": viol["T"],
+                    "fuse_silent_reads": viol["fuse_silent_reads"], "programs": viol["trace"]["programs"],
+                    "race": viol["trace"]["race"], "diverged": viol["trace"]["diverged"],
+                    "interleaving": viol["trace"]["interleaving"],
+                    "location": {"name": loc, "symbol": S.locinfo.get(loc, {}).get("symbol"),
+                                 "writers": sorted(S.locinfo.get(loc, {}).get("writers", []))},
+                    "summaries": rows})
+
+
+def leg_model(chk, S, tier):
+    import random
+    rng = random.Random(vlib.seed())
+    cl = S.classes()
+    names = [c["name"] for c in cl]
+    guardy = max(cl, key=lambda c: sum(1 for a in c["acc"] if a["k"] == "gc"))["name"]
+    writers = [c["name"] for c in cl if any(a["k"] in "wu" for a in c["acc"])]
+
+    def pick(n, must=()):
+        s = list(dict.fromkeys(list(must) + rng.sample(names, min(n, len(names)))))
+        return s[:max(n, len(must))]
+
+    quick = tier == "quick"
+    runs = []
+    # A: every pair of catalogue operations, one per thread, every access its own step
+    runs.append(("T=2 K=1 all pairs, unfused", [[names]], 2, False, not quick))
+    if quick:
+        runs.append(("T=2 K=1 seeded subset, unfused, coverage", [[pick(5, [guardy] + writers[:2])]], 2, False, True))
+        runs.append(("T=2 K=2 seeded subset", [[pick(6, writers[:2]), pick(3, [guardy])]], 2, True, False))
+        runs.append(("T=3 K=1 seeded subset", [[pick(3, [guardy] + writers[:1])]], 3, True, False))
+    else:
+        runs.append(("T=2 K=2 all x seeded subset", [[names, pick(5, [guardy] + writers[:2])]], 2, True, False))
+        runs.append(("T=3 K=1 seeded subset", [[pick(6, [guardy] + writers[:2])]], 3, True, False))
+        runs.append(("T=3 K=2 seeded subset", [[pick(2, [guardy]), pick(2, writers[:1])]], 3, True, False))
+    seen = set()
+    taken = {}
+    configs = 0
+    for label, plans, T, fuse, cov in runs:
+        r, viol = run_model(label, S.lines(plans), T, fuse, chk, timeout=3000 if not quick else 1200, coverage=cov)
+        m = re.search(r"Finished computing initial states: (\d+) distinct", r.out)
+        configs += int(m.group(1)) if m else 0
+        for k, v in action_counts(r.out).items():
+            taken[k] = taken.get(k, 0) + v
+        if viol is not None:
+            report(chk, S, viol, seen)
+    missing = [a for a in REQUIRED_ACTIONS if not taken.get(a)]
+    if missing and not seen:
+        if any(a["k"] == "gc" for c in cl for a in c["acc"]) or [a for a in missing if not a.startswith("DoGuard") and a != "DoInitWrite"]:
+            raise MachineryError("vacuity: actions never taken by TLC on the recorded summaries: %s" % missing)
+    chk.cov["actions_taken"] = taken
+    chk.add_cases(configs, distinct_keys=(("class", c["name"]) for c in cl))
+    return seen
+
+
+def leg_stress(chk, exe, tier):
+    """Real threads: T threads x N seeded random catalogue operations; every logged result must equal the sequential
+    golden result of the same binary (decided by Trace_Threads / Threads!ResultVerdict)."""
+    T, N = (4, 1500) if tier == "quick" else (8, 12000)
+    rounds = 1 if tier == "quick" else 3
+    total = 0
+    for k in range(rounds):
+        p = vlib.run([exe, "stress", str(T), str(N), str(vlib.seed() + k)], timeout=1500, check=False)
+        lines = [l for l in p.stdout.splitlines() if l.startswith("{")]
+        golden = [l for l in lines if '"kind":"golden"' in l]
+        runs = [l for l in lines if '"kind":"run"' in l]
+        if p.returncode != 0:
+            if not golden:
+                raise MachineryError("bsaccess stress failed before any thread ran (exit %d): %s" % (p.returncode, p.stderr[-2000:]))
+            chk.fail("the %d-thread stress run terminated abnormally (exit %d) although the same operations complete sequentially" % (T, p.returncode),
+                     {"leg": "stress", "threads": T, "ops_per_thread": N, "seed": vlib.seed() + k, "exit": p.returncode,
+                      "stderr": p.stderr[-1500:]})
+            continue
+        if len(runs) != T * N:
+            raise MachineryError("bsaccess stress logged %d of %d results" % (len(runs), T * N))
+        gp = write_file("golden-%d-%d.ndjson" % (os.getpid(), k), "\n".join(golden) + "\n")
+        cfg = write_file("trace_threads.cfg", "INIT Init\nNEXT Next\n")
+        checked, bad = vlib.validate_traces("Trace_Threads", runs, cfg=cfg, env={"GOLDEN": gp}, shards=min(8, max(1, len(runs) // 4000)))
+        total += checked
+        byop = {}
+        for b in bad:
+            byop.setdefault(b["op"], []).append(b)
+        for op, bs in sorted(byop.items()):
+            chk.fail("operation %s gave a different result under %d threads than sequentially (%d of the logged runs; %s instead of %s)" % (
+                op, T, len(bs), bs[0]["res"], bs[0]["expected"]),
+                {"leg": "stress", "threads": T, "ops_per_thread": N, "seed": vlib.seed() + k, "verdicts": bs[:5]})
+        if k == 0:
+            chk.sample({"leg": "stress", "threads": T, "ops_per_thread": N, "golden": json.loads(golden[0]), "run": json.loads(runs[len(runs) // 2])})
+    chk.add_cases(total, validated=total)
+    return total
+
+
+# ----------------------------------------------------------------------------------------------
+def run_check(tier):
+    chk = Check("C19", tier)
+    chk.cov["rule"] = ("states/transitions = TLC over MC_Threads: all interleavings of the access summaries recorded from the real code, "
+                       "for every program assignment of the plans (cases = program assignments + stress results validated; "
+                       "distinct = operation classes with distinct canonical summaries)")
+    chk.assumptions += [
+        "shared locations = objects in the writable segments of the harness executable (library code is compiled into it) and of "
+        "libpugixml; libc / libstdc++ / libgcc internals, the dynamic loader (GOT), thread-local storage, stack and heap are trusted / not traced",
+        "operations = the C19 catalogue of harness/access_harness.cpp; an access summary is the one recorded on x86-64 Linux, g++ -O1, for the catalogue inputs",
+        "a synchronisation-free segment is represented by its distinct (kind, location) pairs (exact for happens-before race detection); "
+        "in the larger configurations runs of reads of locations that no summary writes are one step (Fuse)",
+        "C++11 guard semantics ([stmt.dcl]/4) as modelled in Threads.tla; static initialisation and everything before thread start happen-before all thread steps",
+    ]
+    exe = build_harness()
+    seg, recs = record(exe)
+    S = Summaries(exe, seg, recs)
+    cl = S.classes()
+    chk.cov["catalogue_operations"] = sorted(set(o["op"] for o in S.ops))
+    chk.cov["operation_classes"] = [{"name": c["name"], "members": c["members"], "accesses": len(c["acc"]),
+                                     "reads": sum(1 for a in c["acc"] if a["k"] == "r"),
+                                     "guard_checks": sum(1 for a in c["acc"] if a["k"] == "gc"),
+                                     "writes": sum(1 for a in c["acc"] if a["k"] in "wu")} for c in cl]
+    chk.cov["raw_accesses_per_operation"] = {o["name"]: o["raw"] for o in S.ops}
+    chk.cov["locations"] = {k: {"symbol": v["symbol"], "init_writers": sorted(v["writers"])} for k, v in sorted(S.locinfo.items())}
+    chk.cov["guards"] = {g: [a["l"] for a in b] for g, b in sorted(S.guards.items())}
+    chk.cov["trusted_accesses_filtered"] = S.trusted
+    chk.cov["traced_segments"] = seg["segments"]
+    if S.notes:
+        chk.notes += S.notes
+    chk.sample({"leg": "record", "operation": S.ops[0]["name"], "summary": S.ops[0]["acc"][:8]})
+    leg_selftest(chk, S)
+    leg_model(chk, S, tier)
+    leg_stress(chk, exe, tier)
+    return chk.finish(exhaustive="all interleavings of the recorded summaries for every program assignment of the stated plans; "
+                                 "all pairs of catalogue operations for T=2, K=1")
+
+
+def run(tier):
+    return run_check(tier)
+
+
+def replay(path):
+    """Re-checks a recorded violation: TLC on the summaries stored in the replay file (the racing interleaving must come back),
+    then the quick check on the current tree."""
+    with open(path) as f:
+        case = json.load(f)
+    print(json.dumps({k: case["case"].get(k) for k in ("leg", "invariant", "programs", "race", "diverged", "location")}, indent=1))
+    c = case["case"]
+    if c.get("leg") == "model":
+        for s in c["interleaving"]:
+            print("  thread %d  %-28s %s" % (s["thread"], s["op"], s["step"]))
+        rows = c["summaries"] + [{"kind": "plan", "slots": [[p[k]] for k in range(len(p))]} for p in c["programs"]]
+        # the recorded programs are one assignment; the plan lines above allow every thread each of them
+        slots = [sorted(set(p[k] for p in c["programs"])) for k in range(len(c["programs"][0]))]
+        rows = c["summaries"] + [{"kind": "plan", "slots": slots}]
+        r, viol = run_model("replay", rows, c["T"], c["fuse_silent_reads"], None, timeout=900, workers=4)
+        print("replay of the recorded summaries: TLC exit %d%s" % (r.rc, (" - %s reproduced" % viol["invariant"]) if viol else " - not reproduced"))
+    return run_check("quick")
